@@ -17,7 +17,7 @@
 From Coq Require Import Permutation.
 From Gdsl.Model Require Import Spec Conc.
 From Gdsl.Model Require Import ConcClass.
-From Gdsl.Proofs Require Import ConcProof ConcCycle ConcClassProof ConcForest.
+From Gdsl.Proofs Require Import ConcProof ConcCycle ConcClassProof ConcForest ConcTwoCalls.
 
 (* in every reachable configuration a thread holds at most one guard, and only for the critical section it is parked at *)
 Theorem c17_one_guard_per_thread :
@@ -150,6 +150,25 @@ Theorem c17_len3_directed_outside_classes_good :
   forallb (outside_good true) (scenarios3 true) = true.
 Proof. exact c17_len3_directed_outside_classes_good. Qed.
 Print Assumptions c17_len3_directed_outside_classes_good.
+
+(* BOUNDED, program order: thread 0 makes TWO calls, thread 1 one, all calls, 5 heaps (109760 directed / 69120 undirected scenarios; 31470 / 13600 outside the classes): every maximal schedule ends without panic, all done, with the outcome of a serial MAXIMAL schedule — one that runs each thread's calls in its own order *)
+Theorem c17_two_calls_outside_classes_serialisable :
+  forall (directed : bool) (h : heap nat nat nat) (a1 a2 b : call nat nat) (sched : list nat),
+       In h (small_heaps1 directed) ->
+       In a1 (small_calls directed) ->
+       In a2 (small_calls directed) ->
+       In b (small_calls directed) ->
+       known_class Nat.eqb directed h [[a1; a2]; [b]] = None ->
+       let c0 := init_config Nat.eqb directed h [[a1; a2]; [b]] in
+       In sched (explore Nat.eqb directed 200 c0 []) ->
+       no_panic (final Nat.eqb directed 200 c0 sched) = true /\
+       all_done (final Nat.eqb directed 200 c0 sched) = true /\
+       (exists s : list nat,
+          In s (explore Nat.eqb directed 200 c0 []) /\
+          serial_from Nat.eqb directed c0 None false s = true /\
+          outcome_eqb Nat.eqb (final Nat.eqb directed 200 c0 s) (final Nat.eqb directed 200 c0 sched) = true).
+Proof. exact c17_two_calls_outside_classes_serialisable. Qed.
+Print Assumptions c17_two_calls_outside_classes_serialisable.
 
 (* REFUTATION: isolate || connect panics and poisons a lock *)
 Theorem c17_refuted_panic :
